@@ -113,6 +113,12 @@ pub trait Rt: 'static {
     fn dirty_cause(_r: &Self::R<'_>, _off: &[usize]) -> Option<Vec<String>> {
         None
     }
+    /// The class part of a signature for a given clause: `fields` names the differing fields
+    /// (empty for panics / buffer dependence).  Lets a type name only the class of the
+    /// part that actually failed, so one defect does not spread over unrelated classes.
+    fn sig_tag_for(r: &Self::R<'_>, _fields: &str) -> String {
+        Self::sig_tag(r)
+    }
     /// Text images used to name the differing fields (left: the value, right: what the
     /// parser returned); only types with a documented lenient `same` override them.
     fn show_lhs(r: &Self::R<'_>) -> String {
@@ -381,7 +387,7 @@ pub fn check<T: Rt>(acc: &mut Acc, tier: Tier, r: &T::R<'_>, c: &T::Ctx, o: &Ori
     } else {
         acc.values += 1;
     }
-    let tag = T::sig_tag(r);
+    let tag = T::sig_tag_for(r, "");
     let kind = if derived { "re-parsed" } else { "generated" };
     let rj = || replay_json::<T>(tier, o);
     let n = match catch_unwind(AssertUnwindSafe(|| T::blen(r, c))) {
@@ -479,6 +485,7 @@ pub fn check<T: Rt>(acc: &mut Acc, tier: Tier, r: &T::R<'_>, c: &T::Ctx, o: &Ori
                     }
                 })
             }));
+            let tag = T::sig_tag_for(r, &why);
             acc.viol(
                 format!("C06/{}-parse-fails/{}{}/{}", clause, T::NAME, tagsep(&tag), why),
                 || format!("bytes emitted (zero-filled buffer) from a {} value are rejected by the parser ({}): value {:?} ctx {:?} emitted {}", kind, why, r, c, hex(&bufs[0])),
@@ -487,6 +494,7 @@ pub fn check<T: Rt>(acc: &mut Acc, tier: Tier, r: &T::R<'_>, c: &T::Ctx, o: &Ori
         }
         Ok(ParseOut::Differs(p)) => {
             let d = grouped_diff::<T>(&T::show_lhs(r), &p);
+            let tag = T::sig_tag_for(r, &d);
             acc.viol(
                 format!("C06/{}-differs/{}{}/{}", clause, T::NAME, tagsep(&tag), d),
                 || {
